@@ -1,0 +1,86 @@
+//go:build verif
+
+package parser
+
+// Contracts for the govc verifier (/verif). Comments only: this file adds no declarations.
+// Syntax: /verif/DESIGN.md section 3.5. Integers in specifications are mathematical.
+
+// ---- C14: the lexer never indexes outside its input or its buffers, and its loops terminate ---------
+
+// representation invariant of the lexer
+//@ macro wfLex(l *lexer) bool = l != nil && 0 <= l.start && l.start <= l.pos && l.pos <= len(l.input) && 0 <= l.width && l.width <= 4 \
+//@      && len(l.tokens) > 0 && 0 <= l.head && l.head < len(l.tokens) && 0 <= l.tail && l.tail < len(l.tokens)
+
+//@ func (l *lexer) next() (r rune)
+//@   mode int
+//@   property C14
+//@   requires wfLex(l)
+//@   assigns l.pos, l.width
+//@   ensures wfLex(l) && l.pos == old(l.pos) + l.width
+//@   ensures old(l.pos) >= len(l.input) ==> l.width == 0 && r == 0
+//@   ensures old(l.pos) < len(l.input) ==> l.width >= 1
+
+//@ func (l *lexer) backup()
+//@   mode int
+//@   property C14
+//@   requires wfLex(l) && l.width <= l.pos - l.start
+//@   assigns l.pos
+//@   ensures wfLex(l) && l.pos == old(l.pos) - l.width
+
+//@ func (l *lexer) peek() rune
+//@   mode int
+//@   property C14
+//@   requires wfLex(l)
+//@   assigns l.pos, l.width
+//@   ensures wfLex(l) && l.pos == old(l.pos)
+
+//@ func (l *lexer) ignore()
+//@   mode int
+//@   property C14
+//@   requires wfLex(l)
+//@   assigns l.start
+//@   ensures wfLex(l) && l.start == l.pos
+
+//@ func (l *lexer) isEof() bool
+//@   mode int
+//@   property C14
+//@   requires wfLex(l)
+//@   assigns nothing
+//@   ensures result == (l.pos >= len(l.input))
+
+//@ func (l *lexer) pushToken(t token)
+//@   mode int
+//@   property C14
+//@   requires wfLex(l)
+//@   assigns l.head, elems(l.tokens)
+//@   ensures wfLex(l)
+
+//@ func (l *lexer) popToken() token
+//@   mode int
+//@   property C14
+//@   requires wfLex(l)
+//@   assigns l.tail
+//@   ensures wfLex(l)
+
+// whitespace and comments are skipped; the scan never moves backwards and stops at the end of the input
+//@ func (l *lexer) acceptWS()
+//@   mode int
+//@   property C14
+//@   requires wfLex(l)
+//@   assigns l.pos, l.start, l.width
+//@   loop 1 invariant wfLex(l) && l.pos >= old(l.pos)
+//@   loop 2 invariant wfLex(l) && l.pos >= old(l.pos) && l.pos >= at(1, l.pos)
+//@   loop 3 invariant wfLex(l) && l.pos >= old(l.pos) && l.pos >= at(1, l.pos) && (l.pos > at(1, l.pos) || len(l.input) - l.pos >= 2)
+//@   loop 4 invariant wfLex(l) && l.pos >= old(l.pos) && l.pos >= at(1, l.pos) && (l.pos > at(1, l.pos) || len(l.input) - l.pos >= 2)
+//@   loop 1 decreases len(l.input) - l.pos
+//@   loop 2 decreases len(l.input) - l.pos
+//@   loop 3 decreases len(l.input) - l.pos
+//@   loop 4 decreases len(l.input) - l.pos
+//@   ensures wfLex(l) && l.start == l.pos && l.pos >= old(l.pos)
+
+//@ func (l *lexer) emit(t int)
+//@   mode int
+//@   property C14
+//@   requires wfLex(l)
+//@   assigns l.pos, l.start, l.width, l.head, elems(l.tokens)
+//@   ensures wfLex(l) && l.start == l.pos && l.pos >= old(l.pos)
